@@ -35,12 +35,12 @@ type EBox struct {
 }
 
 type ECfg struct {
-	TopName string           `dials:"top_name"`
-	Items   []EItem          `dials:"item_list"`
-	More    []EItem          `dials:"more_items"`
-	One     *EItem           `dials:"one_item"`
-	HTTPPort int              // untagged: key from the Go field name [http port]
-	Box     EBox             `dials:"the_box"`
+	TopName  string  `dials:"top_name"`
+	Items    []EItem `dials:"item_list"`
+	More     []EItem `dials:"more_items"`
+	One      *EItem  `dials:"one_item"`
+	HTTPPort int     // untagged: key from the Go field name [http port]
+	Box      EBox    `dials:"the_box"`
 }
 
 type EVal struct {
@@ -359,6 +359,6 @@ func TestC20Elements(t *testing.T) {
 			"non-trivial = a renaming convention and at least one struct inside a collection was supplied; distinct = distinct case JSON",
 		Assumptions: []string{"multi-word lower_snake dials tags, so that every convention spells them differently",
 			"arrays of structs (pointerified to *[N]Struct), slices of pointers to structs and map values are not descended into by the library's tag manglers on the unmodified tree and no document promises it; they are left out"},
-		Gen:         genC20Elem, Run: runC20Elem,
+		Gen: genC20Elem, Run: runC20Elem,
 	})
 }
